@@ -43,6 +43,7 @@ MISS = '<MISS>'                      # JSON stand-in for "the caller's default c
 _SENT = core.Constant('VERIF_CONC_DEFAULT')
 KINDS = ('cache', 'fanout', 'deque', 'index')
 BLOCK_OPS = ('begin_block', 'end_block', 'raise_in_block')
+ITER_OPS = ('iter_open', 'iter_rest')      # a key iterator that stays partially consumed across other calls
 
 
 def scratch(ctx, name=''):
@@ -66,12 +67,18 @@ class BlockAbort(Exception):
     """The exception a program raises inside a transact block ({'op': 'raise_in_block'})."""
 
 
+class BlockAbortBase(BaseException):
+    """{'op': 'raise_in_block', 'base': True}: an exception that is not an Exception (KeyboardInterrupt, SystemExit,
+    GeneratorExit, asyncio.CancelledError are of this kind): the block must roll back all the same."""
+
+
 # ---------------------------------------------------------------------------
 # objects
 
 
 def make_object(kind, directory, settings=None, timeout=0, shards=2):
     settings = dict(settings or {})
+    maxlen = settings.pop('maxlen', None)       # bounded Deque (not a Cache setting)
     if kind == 'cache':
         return diskcache.Cache(directory, timeout=timeout, **settings)
     if kind == 'fanout':
@@ -79,7 +86,12 @@ def make_object(kind, directory, settings=None, timeout=0, shards=2):
     if kind in ('deque', 'index'):
         settings.setdefault('eviction_policy', 'none')
         c = diskcache.Cache(directory, timeout=timeout, **settings)
-        return diskcache.Deque.fromcache(c) if kind == 'deque' else diskcache.Index.fromcache(c)
+        if kind == 'index':
+            return diskcache.Index.fromcache(c)
+        d = diskcache.Deque.fromcache(c)
+        if maxlen is not None:
+            d._maxlen = maxlen                   # the attribute the constructor sets; the property setter would pop items
+        return d
     raise ValueError(kind)
 
 
@@ -304,6 +316,7 @@ class Interp:
         self.on_start = on_start
         self.records = []
         self.stack = []             # open transact context managers, outermost first
+        self.iters = []             # partially consumed key iterators (iter_open ... iter_rest)
         self.current = None
 
     def _record(self, j, **kw):
@@ -361,11 +374,11 @@ class Interp:
                     else:
                         rec['result'] = 'no-block'
                 elif op == 'raise_in_block':
-                    exc = BlockAbort('raise_in_block')
+                    exc = BlockAbortBase('raise_in_block') if call.get('base') else BlockAbort('raise_in_block')
                     # the exception propagates through every enclosing block, innermost first
                     while self.stack:
                         cm = self.stack.pop()
-                        swallowed = cm.__exit__(BlockAbort, exc, None)
+                        swallowed = cm.__exit__(type(exc), exc, None)
                         if swallowed:
                             break
                     rec['result'] = 'raised'
@@ -379,6 +392,20 @@ class Interp:
                         elif calls[k]['op'] == 'end_block':
                             depth -= 1
                     skip_to = k if rec['depth'] > 0 else j
+                elif op == 'iter_open':
+                    # `for key in cache:` suspended after its first n keys; the calls that follow run "inside the loop body"
+                    how = call.get('how', 'iter')
+                    it = iter(self.obj) if how == 'iter' else (reversed(self.obj) if how == 'reversed' else self.obj.iterkeys())
+                    got = []
+                    for _ in range(call.get('n', 1)):
+                        try:
+                            got.append(jsonable(next(it)))
+                        except StopIteration:
+                            break
+                    self.iters.append(it)
+                    rec['result'] = got
+                elif op == 'iter_rest':
+                    rec['result'] = [jsonable(k) for k in self.iters.pop()] if self.iters else []
                 else:
                     rec['result'] = apply_call(self.obj, call, self.kind)
             except sched.Killed:
@@ -540,7 +567,7 @@ def api_snapshot(directory, kind='cache', shards=2, with_check=False):
 
 
 def run_program(ctx, programs, schedule, mode='own', settings=None, kill_at=None, setup=None, kind='cache',
-                max_steps=4000, now=1000.0, shards=2, directory=None, keep_objects=False, sleep_advances=True):
+                max_steps=4000, now=1000.0, shards=2, directory=None, keep_objects=False, sleep_advances=True, after_txn=None):
     """n client threads under the deterministic scheduler (see the module docstring for the result)."""
     assert mode in ('own', 'shared')
     n = len(programs)
@@ -561,7 +588,9 @@ def run_program(ctx, programs, schedule, mode='own', settings=None, kill_at=None
             objs = [o] * n
         for o in objs[:1] if mode == 'shared' else objs:
             close_object(o)          # the creating thread's connection; clients open their own
-        s = sched.Scheduler(clock, max_steps=max_steps, sleep_advances=sleep_advances)
+        # threads sharing one object: also schedule between a transaction statement and the bookkeeping after it
+        s = sched.Scheduler(clock, max_steps=max_steps, sleep_advances=sleep_advances,
+                            after_txn=(mode == 'shared') if after_txn is None else after_txn)
         interps = [Interp(i, objs[i], kind, programs[i], (lambda i=i: s.nevents[i])) for i in range(n)]
 
         def prog(i):
